@@ -834,6 +834,16 @@ def run_(ctx):
                                    "post_crash_directory": [{k: f[k] for k in ("name", "cls", "len", "vlen", "dlen")} for f in e["disk"]],
                                    "recovered": e["res"], "old": hdr["old"]["proj"], "new": hdr["new"]["proj"], "resave": e["resave"]})
     ctx.cov["roundtrip_mismatch_cases"] = sum(1 for l in lines if lib.is_new(l) and not json.loads(l)["roundtrip_same"])
+    # informational: the save + reload that follows a recovery succeeded but did not show what was in memory (not judged)
+    rs, hdr = {}, None
+    for l in lines:
+        if lib.is_new(l):
+            hdr = json.loads(l)
+        elif '"same":false' in l and hdr is not None:
+            rs[hdr["routine"]] = rs.get(hdr["routine"], 0) + 1
+    ctx.cov["resave_reload_differs_informational"] = rs
+    if rs.get("journal") and "F06c" in kd:
+        lib.note_known(ctx, "F06c", rs["journal"])
     finish_args = dict(n=n, nontrivial=nontrivial, distinct=distinct, gen=gen, per_routine=per_routine, v=v, cases=cases, consts=consts)
     if ctx.violations:
         # the verdict is in: no self-test / informational stage on a tree that violates the property
